@@ -18,17 +18,123 @@ import (
 
 type leafFn func(v ssa.Value) (interface{}, bool)
 
+// leafX is a leaf function that sees the frame a value is evaluated in (see evalFrame.origin).
+type leafX func(fr *evalFrame, v ssa.Value) (interface{}, bool)
+
+// evalFrame is one activation in the evaluator: the function, how phis resolve (along a CFG
+// path or by the predecessor recorded by the walker) and the call it was entered through.
+type evalFrame struct {
+	fn      *ssa.Function
+	parent  *evalFrame
+	call    *ssa.Call
+	path    *cfgPath
+	phiFrom map[*ssa.BasicBlock]*ssa.BasicBlock
+}
+
+// absPtr is an abstract pointer: only its nil-ness and a tag are known.
+type absPtr struct {
+	tag   string
+	isNil bool
+}
+
+type evaluator struct {
+	leaf   leafX
+	inline func(callee *ssa.Function) bool // which library callees may be evaluated inline (loop-free bodies only)
+	steps  int
+	fail   string // first reason an evaluation failed
+}
+
+func (fr *evalFrame) resolve(v ssa.Value) ssa.Value {
+	for depth := 0; depth < 16; depth++ {
+		phi, ok := v.(*ssa.Phi)
+		if !ok {
+			return v
+		}
+		if fr.path != nil {
+			w := fr.path.resolve(v)
+			if w == v {
+				return v
+			}
+			v = w
+			continue
+		}
+		pred, ok := fr.phiFrom[phi.Block()]
+		if !ok {
+			return v
+		}
+		idx := -1
+		for k, pb := range phi.Block().Preds {
+			if pb == pred {
+				idx = k
+			}
+		}
+		if idx < 0 {
+			return v
+		}
+		v = phi.Edges[idx]
+	}
+	return v
+}
+
+// origin follows phis (as resolved in the frame) and parameters (to the caller's argument)
+// and returns the defining value together with the frame it lives in.
+func (fr *evalFrame) origin(v ssa.Value) (*evalFrame, ssa.Value) {
+	for depth := 0; depth < 16; depth++ {
+		v = fr.resolve(v)
+		p, ok := v.(*ssa.Parameter)
+		if !ok || fr.parent == nil || fr.call == nil {
+			return fr, v
+		}
+		idx := -1
+		for i, q := range fr.fn.Params {
+			if q == p {
+				idx = i
+			}
+		}
+		if idx < 0 || idx >= len(fr.call.Common().Args) {
+			return fr, v
+		}
+		v = fr.call.Common().Args[idx]
+		fr = fr.parent
+	}
+	return fr, v
+}
+
 func evalSSA(p *cfgPath, v ssa.Value, leaf leafFn, depth int) (interface{}, bool) {
-	if depth > 24 {
+	ev := &evaluator{leaf: func(_ *evalFrame, v ssa.Value) (interface{}, bool) { return leaf(v) }}
+	return ev.eval(&evalFrame{path: p}, v, depth)
+}
+
+func (ev *evaluator) eval(fr *evalFrame, v ssa.Value, depth int) (interface{}, bool) {
+	if depth > 40 {
 		return nil, false
 	}
-	if p != nil {
-		v = p.resolve(v)
-	}
-	if x, ok := leaf(v); ok {
+	v = fr.resolve(v)
+	if x, ok := ev.leaf(fr, v); ok {
 		return x, true
 	}
 	switch x := v.(type) {
+	case *ssa.Parameter:
+		if fr.parent != nil && fr.call != nil {
+			for i, q := range fr.fn.Params {
+				if q == x && i < len(fr.call.Common().Args) {
+					return ev.eval(fr.parent, fr.call.Common().Args[i], depth+1)
+				}
+			}
+		}
+		return nil, false
+	case *ssa.Phi:
+		// a merge outside the walked region: choose the edge by the branch condition that selects it
+		if cond, edge0True, ok := phiSelector(x); ok {
+			cv, known := ev.eval(fr, cond, depth+1)
+			if b, isB := cv.(bool); known && isB {
+				if b == edge0True {
+					return ev.eval(fr, x.Edges[0], depth+1)
+				}
+				return ev.eval(fr, x.Edges[1], depth+1)
+			}
+		}
+		return nil, false
 	case *ssa.Const:
 		if x.Value == nil {
 			return nil, false
@@ -49,7 +155,7 @@ func evalSSA(p *cfgPath, v ssa.Value, leaf leafFn, depth int) (interface{}, bool
 			return constant.BoolVal(x.Value), true
 		}
 	case *ssa.Convert:
-		a, ok := evalSSA(p, x.X, leaf, depth+1)
+		a, ok := ev.eval(fr, x.X, depth+1)
 		if !ok {
 			return nil, false
 		}
@@ -71,7 +177,7 @@ func evalSSA(p *cfgPath, v ssa.Value, leaf leafFn, depth int) (interface{}, bool
 		}
 		return nil, false
 	case *ssa.UnOp:
-		a, ok := evalSSA(p, x.X, leaf, depth+1)
+		a, ok := ev.eval(fr, x.X, depth+1)
 		if !ok {
 			return nil, false
 		}
@@ -90,8 +196,21 @@ func evalSSA(p *cfgPath, v ssa.Value, leaf leafFn, depth int) (interface{}, bool
 		}
 		return nil, false
 	case *ssa.BinOp:
-		a, ok1 := evalSSA(p, x.X, leaf, depth+1)
-		b, ok2 := evalSSA(p, x.Y, leaf, depth+1)
+		if x.Op == token.EQL || x.Op == token.NEQ {
+			isNil := func(v ssa.Value) bool { k, ok := v.(*ssa.Const); return ok && k.Value == nil && !isStringType(k.Type()) }
+			for _, pr := range [][2]ssa.Value{{x.X, x.Y}, {x.Y, x.X}} {
+				if isNil(pr[0]) {
+					o, ok := ev.eval(fr, pr[1], depth+1)
+					ptr, isP := o.(absPtr)
+					if !ok || !isP {
+						return nil, false
+					}
+					return ptr.isNil == (x.Op == token.EQL), true
+				}
+			}
+		}
+		a, ok1 := ev.eval(fr, x.X, depth+1)
+		b, ok2 := ev.eval(fr, x.Y, depth+1)
 		if !ok1 || !ok2 {
 			return nil, false
 		}
@@ -199,7 +318,7 @@ func evalSSA(p *cfgPath, v ssa.Value, leaf leafFn, depth int) (interface{}, bool
 		}
 		switch callee.String() {
 		case "math.Ceil", "math.Floor":
-			a, ok := evalSSA(p, x.Common().Args[0], leaf, depth+1)
+			a, ok := ev.eval(fr, x.Common().Args[0], depth+1)
 			f, isF := a.(float64)
 			if !ok || !isF {
 				return nil, false
@@ -208,9 +327,16 @@ func evalSSA(p *cfgPath, v ssa.Value, leaf leafFn, depth int) (interface{}, bool
 				return math.Ceil(f), true
 			}
 			return math.Floor(f), true
+		case "strconv.Itoa":
+			a, ok := ev.eval(fr, x.Common().Args[0], depth+1)
+			k, isI := a.(int64)
+			if !ok || !isI {
+				return nil, false
+			}
+			return fmt.Sprintf("%d", k), true
 		case "strings.Compare":
-			a, ok1 := evalSSA(p, x.Common().Args[0], leaf, depth+1)
-			b, ok2 := evalSSA(p, x.Common().Args[1], leaf, depth+1)
+			a, ok1 := ev.eval(fr, x.Common().Args[0], depth+1)
+			b, ok2 := ev.eval(fr, x.Common().Args[1], depth+1)
 			as, isA := a.(string)
 			bs, isB := b.(string)
 			if !ok1 || !ok2 || !isA || !isB {
@@ -224,7 +350,7 @@ func evalSSA(p *cfgPath, v ssa.Value, leaf leafFn, depth int) (interface{}, bool
 			}
 			var args []interface{}
 			for _, a := range sprintfArgs(x) {
-				v, ok := evalSSA(p, a, leaf, depth+1)
+				v, ok := ev.eval(fr, a, depth+1)
 				if !ok {
 					return nil, false
 				}
@@ -232,8 +358,85 @@ func evalSSA(p *cfgPath, v ssa.Value, leaf leafFn, depth int) (interface{}, bool
 			}
 			return fmt.Sprintf(f, args...), true
 		}
+		if ev.inline != nil && callee.Blocks != nil && ev.inline(callee) {
+			res, outcome := ev.run(callee, fr, x, nil, nil)
+			if outcome == "return" && len(res) == 1 {
+				return res[0], true
+			}
+			return nil, false
+		}
 	}
 	return nil, false
+}
+
+// run walks a loop-free region: from block start (the entry block when nil) it follows the branch
+// each condition evaluates to, until a Return ("return", with the evaluated results), a Panic
+// ("panic"), a block for which stop returns true ("stop:<index>") or a failure ("fail", with
+// ev.fail set: a condition that cannot be evaluated, or a block visited twice).
+func (ev *evaluator) run(fn *ssa.Function, parent *evalFrame, call *ssa.Call, start *ssa.BasicBlock, stop func(b *ssa.BasicBlock) bool) ([]interface{}, string) {
+	fr := &evalFrame{fn: fn, parent: parent, call: call, phiFrom: map[*ssa.BasicBlock]*ssa.BasicBlock{}}
+	return ev.runFrame(fr, start, stop)
+}
+
+func (ev *evaluator) runFrame(fr *evalFrame, start *ssa.BasicBlock, stop func(b *ssa.BasicBlock) bool) ([]interface{}, string) {
+	b := start
+	if b == nil {
+		b = fr.fn.Blocks[0]
+	}
+	seen := map[*ssa.BasicBlock]bool{}
+	first := true
+	for {
+		ev.steps++
+		if !first && stop != nil && stop(b) {
+			return nil, fmt.Sprintf("stop:%d", b.Index)
+		}
+		first = false
+		if seen[b] || ev.steps > 100000 {
+			ev.setFail("the region is not loop-free at block " + fmt.Sprint(b.Index) + " of " + fname(fr.fn))
+			return nil, "fail"
+		}
+		seen[b] = true
+		switch last := b.Instrs[len(b.Instrs)-1].(type) {
+		case *ssa.Return:
+			var out []interface{}
+			for _, res := range last.Results {
+				v, ok := ev.eval(fr, res, 0)
+				if !ok {
+					ev.setFail("returned value not evaluable in " + fname(fr.fn) + ": " + res.String())
+					return nil, "fail"
+				}
+				out = append(out, v)
+			}
+			return out, "return"
+		case *ssa.Panic:
+			return nil, "panic"
+		case *ssa.If:
+			v, ok := ev.eval(fr, last.Cond, 0)
+			t, isB := v.(bool)
+			if !ok || !isB {
+				ev.setFail("branch condition not evaluable in " + fname(fr.fn) + ": " + last.Cond.String())
+				return nil, "fail"
+			}
+			next := b.Succs[1]
+			if t {
+				next = b.Succs[0]
+			}
+			fr.phiFrom[next] = b
+			b = next
+		case *ssa.Jump:
+			fr.phiFrom[b.Succs[0]] = b
+			b = b.Succs[0]
+		default:
+			ev.setFail("unsupported block terminator in " + fname(fr.fn))
+			return nil, "fail"
+		}
+	}
+}
+
+func (ev *evaluator) setFail(msg string) {
+	if ev.fail == "" {
+		ev.fail = msg
+	}
 }
 
 // feasiblePaths returns the paths all of whose branch conditions evaluate to their polarity.
